@@ -625,7 +625,7 @@ package parse
 //@   measure rem(t), 5
 //@   ensures typeis(result, *ast.SwitchNode)
 //@   loop 0
-//@     invariant stepOK(t) && t.aliases != nil
+//@     invariant stepOK(t) && t.aliases != nil && fresh(cases)
 //@     decreases ntoks(t.lex) - cursor(t)
 
 //@ func (*tree).parseCase
